@@ -25,6 +25,8 @@ from typing import Any, Callable, Iterable, Optional
 
 VERIF = os.path.dirname(os.path.dirname(os.path.abspath(__file__)))
 NPROC = int(os.environ.get('VERIF_JOBS', '0')) or min(16, os.cpu_count() or 1)
+# where evidence/ and replays/ are written (override only for trial runs against modified trees)
+OUT = os.environ.get('VERIF_OUT') or VERIF
 
 
 def h64(obj: Any) -> int:
@@ -212,7 +214,7 @@ class Run:
         kf = KnownFindings()
         unlisted = []
         known_hit = []
-        rdir = os.path.join(VERIF, 'replays', self.prop)
+        rdir = os.path.join(OUT, 'replays', self.prop)
         for key in sorted(total.violations, key=lambda k: (total.violations[k][0], k)):
             size, case, text = total.violations[key]
             if (self.prop, key) in kf.known:
@@ -267,8 +269,8 @@ class Run:
             'wall_s': round(wall, 2),
             'violations': unlisted,
         }
-        os.makedirs(os.path.join(VERIF, 'evidence'), exist_ok=True)
-        path = os.path.join(VERIF, 'evidence', f'{self.prop}.json')
+        os.makedirs(os.path.join(OUT, 'evidence'), exist_ok=True)
+        path = os.path.join(OUT, 'evidence', f'{self.prop}.json')
         tmp = path + '.tmp'
         with open(tmp, 'w', encoding='utf-8') as f:
             json.dump(ev, f, indent=1, default=str, ensure_ascii=True)
